@@ -495,6 +495,24 @@ func CheckPure(run *core.Run, prog *load.Program, rule string) {
 			}
 			return true
 		})
+		// package-level state: only immutable tables (strings, string slices, the replacer, the FuncMap) may be used
+		ast.Inspect(decl.Body, func(x ast.Node) bool {
+			id, ok := x.(*ast.Ident)
+			if !ok {
+				return true
+			}
+			v, ok := info.Uses[id].(*types.Var)
+			if !ok || v.Pkg() == nil || v.Parent() != v.Pkg().Scope() || !prog.IsMoqPkg(v.Pkg()) {
+				return true
+			}
+			ts := types.TypeString(v.Type(), nil)
+			switch ts {
+			case "string", "[]string", "*strings.Replacer", "text/template.FuncMap":
+				return true
+			}
+			bad = append(bad, "package-level "+v.Name()+" ("+ts+")")
+			return true
+		})
 		run.Check(rule, n, prog.Pos(decl.Pos()), len(bad) == 0, fmt.Sprintf("%s, which the template reaches, writes to %v: a rendering helper that stores state (a cache, a rename) makes the output depend on when it is first called — e.g. a type string frozen before a later interface forces an import to be re-aliased", n, bad))
 	}
 	run.Floor(rule, 8)
